@@ -1,5 +1,6 @@
 import PqV.Impl.DatasetOps
 import PqV.Lemmas.Dataset
+import PqV.Lemmas.DatasetInv
 /-!
 # C09 — dataset edits follow a simple model; metadata and directory agree
 
@@ -72,5 +73,57 @@ theorem append_fresh (ds : DS) (nd : NewData) :
 example :
     let ds0 := addNew { files := [], refs := [] } [[("p=0", [1]), ("p=1", [0])], [("p=0", [2])]]
     (sortPartNames ds0).map agree = .ok true := by decide
+
+
+/-- **metadata and directory agree after every history** (the property's invariant, by induction over
+    the operations): starting from nothing, after any sequence of write / append / overwrite /
+    remove_row_groups / write_row_groups(sort_key) / _sort_part_names — with or without renumbering —
+    that the model executes without error, every row group of `_metadata` names a file holding exactly
+    its rows, every file on disk is named by a row group, and no two row groups share a file.
+    `HistOk`: the pieces of one incoming row group go to distinct directories (they come from a
+    group-by), and where part files are renumbered the part numbers and row-group count stay below
+    `tmpBase` = 10^6, the model's stand-in for the `.tmp` suffix. -/
+theorem agree_after_every_history (ops : List Op) (ds' : DS) (hok : HistOk empty ops) (hr : run empty ops = .ok ds') :
+    Inv ds' ∧ agree ds' = true :=
+  let h := run_inv ops empty ds' inv_empty hok hr
+  ⟨h, agree_of_inv h⟩
+
+/-- **renumbering is total and changes nothing that is read**: under the invariant `_sort_part_names`
+    cannot fail (no rename finds its source missing, no rename clobbers a live file), afterwards every
+    part number equals the position of its row group, and the content per row group is what it was. -/
+theorem sort_names_total_and_neutral (ds : DS) (h : Inv ds) (hb : Bounded ds) :
+    ∃ ds', sortPartNames ds = .ok ds' ∧ Inv ds' ∧ content ds' = content ds ∧
+      ∀ (i : Nat) (r : RgRef), ds'.refs[i]? = some r → r.id = i := by
+  obtain ⟨ds', e, hi, hrefs⟩ := sortPartNames_inv ds h hb
+  refine ⟨ds', e, hi, ?_, ?_⟩
+  · simp only [content, hrefs, renumber]
+    apply List.ext_getElem?
+    intro i
+    simp only [List.getElem?_map, List.getElem?_mapIdx]
+    cases ds.refs[i]? <;> rfl
+  · intro i r hr
+    rw [hrefs] at hr
+    simp only [renumber, List.getElem?_mapIdx] at hr
+    cases h0 : ds.refs[i]? with
+    | none => rw [h0] at hr; cases hr
+    | some r0 =>
+      rw [h0] at hr
+      simp only [Option.map_some, Option.some.injEq] at hr
+      rw [← hr]
+
+/-- one step, stated for the operation the property names -/
+theorem each_step_keeps_agreement (ds ds' : DS) (op : Op) (h : Inv ds) (hop : OpOk ds op) (hs : step ds op = .ok ds') :
+    Inv ds' ∧ agree ds' = true :=
+  let h' := step_inv ds ds' op h hop hs
+  ⟨h', agree_of_inv h'⟩
+
+-- non-vacuity: a history with two partitions, a removal, an overwrite and a collision-prone renumbering
+-- meets `HistOk`, runs without error and ends in agreement
+def witnessOps : List Op :=
+  [.write [[("p=0", [1]), ("p=1", [0])], [("p=0", [2])]], .remove [0] false, .append [[("p=1", [7, 8])]],
+   .overwrite [[("p=0", [9])]] true, .writeSorted [[("p=1", [3]), ("p=0", [4])]] true, .sortNames]
+example : HistOk empty witnessOps := histOk_of_B _ _ (by decide +kernel)
+example : (run empty witnessOps).map agree = .ok true := by decide +kernel
+example : (run empty witnessOps).map (fun ds => ds.refs.length) = .ok 5 := by decide +kernel
 
 end PqV.Props.C09
